@@ -43,6 +43,7 @@ type Engine struct {
 	Callees func(site ssa.CallInstruction) []*ssa.Function
 	// BoundCall lets rules give bounds for special calls (cache lookups).
 	BoundCall func(c *BCtx, call *ssa.Call, idx int) (Bounds, bool)
+	sortsParam map[*ssa.Function][]int
 	// SortedCall lets rules decide sortedness of special calls' results.
 	SortedCall func(call *ssa.Call, idx int) (sorted bool, known bool)
 	// ExtraSortedCall lets the caller declare library calls whose result is
@@ -748,6 +749,19 @@ func limitParam(c *bctx, v ssa.Value) (pfield, bool) {
 		return pfield{x, ""}, true
 	case paramField:
 		return pfield{x.Parameter, x.field}, true
+	case cellField:
+		// the struct parameter's local copy handed on whole to a callee: the
+		// field the callee reads is the (possibly defaulted) field of the parameter
+		if p := spilledParam(x.cell); p != nil {
+			if st, ok := derefStructOf(x.cell.Type()); ok {
+				for i := 0; i < st.NumFields(); i++ {
+					if st.Field(i).Name() == x.field && onlyConstFieldStores(x.cell, i) {
+						return pfield{p, x.field}, true
+					}
+				}
+			}
+		}
+		return pfield{}, false
 	case *ssa.Phi:
 		// defaulting: phi(param, const)
 		var pp pfield
@@ -782,6 +796,14 @@ func limitParam(c *bctx, v ssa.Value) (pfield, bool) {
 		}
 	}
 	return pfield{}, false
+}
+
+func derefStructOf(t types.Type) (*types.Struct, bool) {
+	if p, ok := t.Underlying().(*types.Pointer); ok {
+		t = p.Elem()
+	}
+	st, ok := t.Underlying().(*types.Struct)
+	return st, ok
 }
 
 // spilledParam: the cell is the spill of a by-value struct parameter.
